@@ -30,7 +30,7 @@ type fsGenOpts struct {
 	kernel   bool // histories compared with the kernel: clean paths, the root is never an operand of a mutating call, creation perms without setuid/setgid
 }
 
-var fsNames = []string{"a", "b", "c"}
+var fsNames = []string{"a", "b", "c", "ab"} // "ab" extends "a": prefix-related sibling names
 
 func (g *fsGen) pickExisting(kind string) (string, bool) {
 	dirs, files, links := g.impl.existingPaths()
@@ -158,6 +158,19 @@ func lastElem(p string) string {
 // related returns a second operand related to the first (same, child, parent, sibling, other).
 func (g *fsGen) related(p string) string {
 	r := g.r
+	if r.Bool(15) {
+		// a new name inside an EXISTING descendant directory of p (any depth)
+		dirs, _, _ := g.impl.existingPaths()
+		var below []string
+		for _, d := range dirs {
+			if strings.HasPrefix(d, strings.TrimSuffix(p, "/")+"/") {
+				below = append(below, d)
+			}
+		}
+		if len(below) > 0 {
+			return lib.Pick(r, below) + "/" + lib.Pick(r, fsNames)
+		}
+	}
 	switch r.Intn(10) {
 	case 0:
 		return p
@@ -191,6 +204,8 @@ func (g *fsGen) linkTarget() string {
 		return ".."
 	case 4:
 		return lib.Pick(r, fsNames) + "/" + lib.Pick(r, fsNames)
+	case 5:
+		return "../" + lib.Pick(r, fsNames) + "/" + lib.Pick(r, fsNames)
 	default:
 		return g.path()
 	}
@@ -205,6 +220,27 @@ func (g *fsGen) next() string {
 	r := g.r
 	h := lib.Hex
 	if len(g.queue) > 0 {
+		l := g.queue[0]
+		g.queue = g.queue[1:]
+		return l
+	}
+	if g.opts.symlinks && r.Bool(3) {
+		// links between sibling directories whose names are prefix-related (d, dx): relative and absolute, to a file and to a directory
+		base := lib.Pick(r, []string{"/tmp", "/root", "/home"})
+		d := lib.Pick(r, []string{"a", "b", "lib"})
+		dx := d + lib.Pick(r, []string{"b", "64", "a"})
+		g.queue = append(g.queue,
+			fmt.Sprintf("fs 0 mkdirall %s 493", h(base+"/"+d)), fmt.Sprintf("fs 0 mkdirall %s 493", h(base+"/"+dx+"/sub")),
+			fmt.Sprintf("fs 0 writefile %s %s 420", h(base+"/"+dx+"/f"), h("DX")), fmt.Sprintf("fs 0 writefile %s %s 420", h(base+"/"+dx+"/sub/g"), h("G")))
+		tf, td := "../"+dx+"/f", "../"+dx
+		if r.Bool(40) {
+			tf, td = base+"/"+dx+"/f", base+"/"+dx
+		}
+		g.queue = append(g.queue, fmt.Sprintf("fs 0 symlink %s %s", h(tf), h(base+"/"+d+"/lf")), fmt.Sprintf("fs 0 symlink %s %s", h(td), h(base+"/"+d+"/ld")))
+		for _, q := range []string{"readfile " + h(base+"/"+d+"/lf"), "stat " + h(base+"/"+d+"/lf"), "evalsymlinks " + h(base+"/"+d+"/lf"), "readfile " + h(base+"/"+d+"/ld/f"),
+			"readdir " + h(base+"/"+d+"/ld"), "readfile " + h(base+"/"+d+"/ld/sub/g"), "evalsymlinks " + h(base+"/"+d+"/ld/sub"), "lstat " + h(base+"/"+d+"/ld")} {
+			g.queue = append(g.queue, "fs 0 "+q)
+		}
 		l := g.queue[0]
 		g.queue = g.queue[1:]
 		return l
